@@ -480,9 +480,9 @@ func (fr *frame) binop(x *ssa.BinOp) Val {
 		case token.ADD:
 			return Val{t: u.strConcat(at, bt), typ: x.Type()}
 		case token.EQL:
-			return Val{t: "(= " + at + " " + bt + ")", typ: x.Type()}
+			return Val{t: u.strEq(at, bt), typ: x.Type()}
 		case token.NEQ:
-			return Val{t: "(not (= " + at + " " + bt + "))", typ: x.Type()}
+			return Val{t: "(not " + u.strEq(at, bt) + ")", typ: x.Type()}
 		}
 		panic(unsupportedf("string operator %s", op))
 	}
